@@ -194,7 +194,7 @@ def object_graph_invariant(net):
         for r in node.registers.values():
             pos = sorted(byreg.get(id(r), []))
             if pos != list(range(r.activeQubits)):
-                bad.append("register %d at node %d: positions %r for %d qubits" % (r.num, i, pos, r.activeQubits))
+                bad.append("register positions are not 0..k-1: register %d at node %d holds positions %r for %d qubits" % (r.num, i, pos, r.activeQubits))
     for i, node in enumerate(net.nodes):
         for s in node.simQubits:
             if id(s) not in backing:
